@@ -116,6 +116,12 @@ pub fn naming(p: &Program, rng: &mut Rng, adversarial: bool) -> Naming {
                     }
                 }
             }
+            // ... and an enumerator of that spelling: enumerators keep their names and share the scope of their enum
+            let enumerators: Vec<usize> = (0..p.idents.len()).filter(|i| p.idents[*i].kind == IdKind::EnumValue).collect();
+            if !enumerators.is_empty() && rng.chance(1, 2) {
+                let e = *rng.pick(&enumerators);
+                forced[e] = Some(format!("{}{}", gname, rng.pick(&["_0", "_1", "_1", "_2"])));
+            }
             let pool = if near.is_empty() { any } else { near };
             if !pool.is_empty() {
                 for (k, form) in ["_0", "_1", "_0_0"].iter().enumerate() {
